@@ -8,7 +8,14 @@ are those undefined in the app" through the corpora's keep-lists and corpus::may
           library corpora (the condition guarding the calls is implied by the loop the store sits in);
   /EMPTY  for each kind, an application that uses *no* interface of that kind must still be restricted to none of them:
           the filter exported_decls_builder::priv::keep_wrt_id_of_{fns,vars}_to_keep must not read an empty keep-list as
-          "keep everything" (or abicompat must guarantee a non-empty list).
+          "keep everything" (or abicompat must guarantee a non-empty list).  Decided by interpreting the filter in the
+          world where the list is empty and the declaration has a symbol: it must answer false.
+  /MATCH  the kept ids are id strings of *undefined* symbols of the application (/FEED); an id string spells whether the
+          version is the default one (`@@` vs `@`), which an undefined reference and the definition it binds to do not
+          share.  Every consumer of the keep-lists (the two filters of exported_decls_builder::priv and the two
+          get_unreferenced_*_symbols of corpus::priv, through any helper the list is handed to) therefore has to match an
+          element by (name, version) - elf_symbol::get_name_and_version_from_id - and never by comparing the element with a
+          get_id_string().
 """
 from engine.cfg import strip_casts
 from engine.facts import walk, call_args, member_call_object, expr_str
@@ -17,6 +24,143 @@ from engine.compdb import AnalysisBroken
 UNITS = ["tools/abicompat.cc", "src/abg-corpus.cc"]
 KINDS = {"fns": ("get_sym_ids_of_fns_to_keep", "get_sorted_undefined_fun_symbols", "keep_wrt_id_of_fns_to_keep"),
          "vars": ("get_sym_ids_of_vars_to_keep", "get_sorted_undefined_var_symbols", "keep_wrt_id_of_vars_to_keep")}
+
+
+LISTS = {"fns": ("sym_id_of_fns_to_keep", "sym_id_of_fns_to_keep_", "sym_id_fns_to_keep"),
+         "vars": ("sym_id_of_vars_to_keep", "sym_id_of_vars_to_keep_", "sym_id_vars_to_keep")}
+
+
+def _is_list(f, e, names, params=()):
+    e = strip_casts(e)
+    while e is not None and e["k"] in ("MaterializeTemporaryExpr", "CXXBindTemporaryExpr", "ExprWithCleanups", "ImplicitCastExpr") and e.get("c"):
+        e = strip_casts(e["c"][0])
+    if e is None:
+        return False
+    if e["k"] in ("CXXMemberCallExpr", "MemberExpr") and (f.decl(e) or {}).get("n") in names:
+        return True
+    return e["k"] == "DeclRefExpr" and e.get("d") in params
+
+
+def keep_in_empty_world(P, g, names, params=(), depth=0):
+    """truth values the filter g can return when the keep-list is empty and the declaration has a symbol"""
+    from rules.world import World, ANY, truth
+    symvars = {x.get("d") for x in g.nodes() if x["k"] == "VarDecl" and x.get("c") and x["c"][0] is not None and
+               any(y["k"] == "CXXMemberCallExpr" and (g.decl(y) or {}).get("n") == "get_symbol" for y in walk(x["c"][0]))}
+    symvars |= {x["var"].get("d") for x in g.nodes() if x["k"] == "IfStmt" and x.get("var") and
+                any(y["k"] == "CXXMemberCallExpr" and (g.decl(y) or {}).get("n") == "get_symbol" for y in walk(x["var"]))}
+
+    def atom(e):
+        k = e["k"]
+        if k == "CXXForRangeStmt":
+            return [False] if e.get("c") and _is_list(g, e["c"][0], names, params) else None
+        if k == "CXXMemberCallExpr":
+            nm = (g.decl(e) or {}).get("n")
+            o = member_call_object(e)
+            if nm == "empty" and _is_list(g, o, names, params):
+                return [True]
+            if nm == "size" and _is_list(g, o, names, params):
+                return [0]
+            if nm and nm.startswith("operator bool"):
+                o0 = strip_casts(o)
+                if o0 is not None and o0["k"] == "DeclRefExpr" and o0.get("d") in symvars:
+                    return [True]
+        if k in ("CXXOperatorCallExpr", "BinaryOperator") and e.get("op") in ("!=", "=="):
+            a = call_args(e) if k == "CXXOperatorCallExpr" else e["c"]
+            for x in a:
+                x0 = strip_casts(x)
+                if x0 is not None and x0["k"] == "CXXMemberCallExpr" and (g.decl(x0) or {}).get("n") in ("end", "cend") and \
+                        _is_list(g, member_call_object(x0), names, params):
+                    return [e["op"] == "=="]
+        if k in ("CallExpr", "CXXMemberCallExpr") and depth < 2:
+            h = P.funcs.get((g.decl(e) or {}).get("u"))
+            if h is not None and not h.dep and h.cfg() is not None:
+                hp = [h.r["params"][i] for i, x in enumerate(call_args(e)) if i < len(h.r["params"]) and _is_list(g, x, names, params)]
+                if hp:
+                    return keep_in_empty_world(P, h, names, tuple(hp), depth + 1) or None
+        return None
+    track = {x.get("d") for x in g.nodes() if x["k"] == "VarDecl" and (g.unit.type((g.unit.decl(x.get("d")) or {}).get("t")) or {}).get("s") in ("bool", "_Bool")}
+    return truth(World(g, atom).run_env(track))
+
+
+def check_match(ctx, P):
+    names = LISTS["fns"] + LISTS["vars"]
+    n = 0
+    for f in sorted(P.all_funcs(), key=lambda x: (x.file, x.l0)):
+        if f.dep or f.cfg() is None or not f.q.startswith("abigail::") or f.n in names:
+            continue
+        if not any(_is_list(f, x, names) for x in f.nodes() if x["k"] in ("CXXMemberCallExpr", "MemberExpr")):
+            continue
+        if f.relfile.startswith("tools/"):
+            continue
+        good, bad = [], []
+        _match_uses(P, f, names, (), good, bad, 0)
+        if not good and not bad:
+            continue                                   # only tests emptiness / passes the list on
+        ctx.analysed(f)
+        n += 1
+        from rules.null_rules import short
+        ctx.ob("R-USEDONLY/MATCH", "%s matches the kept ids by name and version" % short(f), not bad, f.loc(bad[0][1]) if bad else f.loc(),
+               "get_name_and_version_from_id on the element (%d use(s))" % len(good) if not bad else
+               "`%s`%s compares a kept id - the id string of an undefined symbol of the application - with get_id_string() of a "
+               "symbol of the library: the strings differ whenever the library defines the symbol under a non-default version "
+               "(`foo@V` vs `foo@@V`), so a used interface is dropped from the comparison" % (
+                   expr_str(bad[0][0], bad[0][1])[:60], "" if bad[0][0] is f else " (in %s)" % bad[0][0].n))
+    ctx.floor("R-USEDONLY/MATCH", "consumers of the keep-lists", n, 4)
+
+
+def _match_uses(P, f, names, params, good, bad, depth):
+    """classify the uses of the elements of a keep-list in f (and in helpers the list is handed to)"""
+    linit = {x.get("d"): x["c"][0] for x in f.nodes() if x["k"] == "VarDecl" and x.get("c") and x["c"][0] is not None}
+    elems = set()      # decl ids of variables that denote an element (range variable) or an iterator over the list
+    for x in f.nodes():
+        if x["k"] == "CXXForRangeStmt" and x.get("c") and _is_list(f, x["c"][0], names, params):
+            elems.add(x.get("d"))
+        if x["k"] == "VarDecl" and x.get("c") and x["c"][0] is not None:
+            for y in walk(x["c"][0]):
+                if y["k"] == "CXXMemberCallExpr" and (f.decl(y) or {}).get("n") in ("begin", "cbegin") and \
+                        _is_list(f, member_call_object(y), names, params):
+                    elems.add(x.get("d"))
+
+    changed = True
+    while changed:                      # `const string& id = *it;`
+        changed = False
+        for x in f.nodes():
+            if x["k"] == "VarDecl" and x.get("d") not in elems and x.get("c") and x["c"][0] is not None and \
+                    any(y["k"] == "DeclRefExpr" and y.get("d") in elems for y in walk(x["c"][0])):
+                elems.add(x.get("d"))
+                changed = True
+
+    def is_elem(e):
+        return any(y["k"] == "DeclRefExpr" and y.get("d") in elems for y in walk(e)) if e is not None else False
+
+    def from_id_string(e, d=0):
+        for y in walk(e):
+            if y["k"] == "CXXMemberCallExpr" and (f.decl(y) or {}).get("n") == "get_id_string":
+                return True
+            if y["k"] == "DeclRefExpr" and y.get("d") in linit and d < 3 and y.get("d") not in elems and from_id_string(linit[y["d"]], d + 1):
+                return True
+        return False
+    for x in f.nodes():
+        k = x["k"]
+        if k in ("CallExpr", "CXXMemberCallExpr"):
+            nm = (f.decl(x) or {}).get("n")
+            args = call_args(x)
+            if nm == "get_name_and_version_from_id" and args and is_elem(args[0]):
+                good.append((f, x))
+            h = P.funcs.get((f.decl(x) or {}).get("u"))
+            if h is not None and not h.dep and h.cfg() is not None and depth < 2:
+                hp = tuple(h.r["params"][i] for i, a in enumerate(args) if i < len(h.r["params"]) and _is_list(f, a, names, params))
+                if hp:
+                    _match_uses(P, h, names, hp, good, bad, depth + 1)
+        if k in ("CXXOperatorCallExpr", "BinaryOperator") and x.get("op") in ("==", "!="):
+            a = call_args(x) if k == "CXXOperatorCallExpr" else x["c"]
+            if len(a) == 2:
+                for i in (0, 1):
+                    s0 = strip_casts(a[i])
+                    # an iterator compared with end() is not an element comparison
+                    if is_elem(a[i]) and not any(y["k"] == "CXXMemberCallExpr" and (f.decl(y) or {}).get("n") in ("end", "cend") for y in walk(a[1 - i])) \
+                            and from_id_string(a[1 - i]):
+                        bad.append((f, x))
 
 
 def _known_from_context(f, node):
@@ -69,7 +213,7 @@ def run(ctx):
     ctx.clause = ("abicompat feeds the libraries' keep-lists only from the application's undefined symbols, for both "
                   "library versions alike, applies them before comparing, and restricts each kind of interface even when "
                   "the application uses none of that kind")
-    ctx.rules = ["R-USEDONLY/FEED", "R-USEDONLY/DROP", "R-USEDONLY/EMPTY"]
+    ctx.rules = ["R-USEDONLY/FEED", "R-USEDONLY/DROP", "R-USEDONLY/EMPTY", "R-USEDONLY/MATCH"]
     P = ctx.program(UNITS)
     unit = P.units["tools/abicompat.cc"]
     fs = [f for f in unit.functions if f.n == "perform_compat_check_in_normal_mode" and not f.dep and f.cfg() is not None]
@@ -112,34 +256,23 @@ def run(ctx):
                    ok, f.loc(n), "every feasible path reaches %s->maybe_drop_some_exported_decls()" % lib if ok else
                    "a path from the store reaches the comparison without %s->maybe_drop_some_exported_decls(): interfaces the "
                    "application does not use are compared" % lib)
-        # EMPTY
+        # EMPTY: interpret the filter in the world where the keep-list is empty and the declaration has a symbol
         ks = [g for g in P.all_funcs() if g.n == keepfn and not g.dep and g.cfg() is not None]
         if len(ks) != 1:
             raise AnalysisBroken("anchor vanished: exported_decls_builder::priv::%s" % keepfn)
         g = ks[0]
         ctx.analysed(g)
-        # `keep` starts true and is only cleared under `!list.empty()`: an empty list keeps everything
-        empty_means_all = False
-        for v in g.nodes():
-            if v["k"] == "VarDecl" and v.get("c") and strip_casts(v["c"][0]) is not None and \
-                    strip_casts(v["c"][0])["k"] == "CXXBoolLiteralExpr" and strip_casts(v["c"][0]).get("v") == 1:
-                kd = v.get("d")
-                clears = [a for a in g.nodes() if a["k"] == "BinaryOperator" and a.get("op") == "=" and
-                          (strip_casts(a["c"][0]) or {}).get("d") == kd and
-                          (strip_casts(a["c"][1]) or {}).get("k") == "CXXBoolLiteralExpr" and strip_casts(a["c"][1]).get("v") == 0]
-                guarded = [a for a in clears if any(
-                    anc["k"] == "IfStmt" and ".empty()" in expr_str(g, anc["c"][0]) and expr_str(g, anc["c"][0]).strip().startswith("!")
-                    for anc in g.ancestors(a))]
-                if guarded:
-                    empty_means_all = True
+        vals = keep_in_empty_world(P, g, LISTS[kind])
+        empty_means_all = vals != frozenset([False])
         guaranteed = False      # abicompat gives no guarantee that the list is non-empty: the loops may not iterate
         ctx.ob("R-USEDONLY/EMPTY", "abicompat: an application using no %s of the library is compared on none of them" % (
             "function" if kind == "fns" else "variable"), not empty_means_all or guaranteed, g.loc(),
-            "an empty keep-list keeps nothing" if not empty_means_all else
+            "with an empty keep-list %s() answers false" % keepfn if not empty_means_all else
             "%s() reads an empty keep-list as `no restriction` and abicompat fills the list only from the application's "
             "undefined %s symbols: when the application uses none, every %s of the library is compared and a change to an "
             "unused one alters the verdict" % (keepfn, "function" if kind == "fns" else "variable",
                                                "function" if kind == "fns" else "variable"))
+    check_match(ctx, P)
     ctx.floor("R-USEDONLY/FEED", "stores into the keep-lists", n_push, 4)
     ctx.assume("which library interfaces the application's undefined symbols resolve to, and weak mode's type comparison, "
                "are runtime behaviour")
